@@ -204,6 +204,14 @@ Example C08_path_nonvacuous :
       p_path := [AxEmpty (1, 2, 512) (key_m (K 5)); AxDef 1 (AEmpty (1, 2, 512)) (key_m (V 0)) 7] |}).
 Proof. exact undecided_example. Qed.
 
+(* non-vacuity of C08_path_sequences: the program of C08_sequences_nonvacuous through the real
+   solidity decoder (real Keccak), the code's guard and a deciding oracle *)
+Example C08_path_sequences_nonvacuous : forall I : aref -> Z -> Z,
+  (forall ax, In ax (p_path (list kt) Z (snd (sol_prun Z orc_ex reg_empty (p_empty (list kt) Z) ops_ex))) ->
+     holds (list kt) Z sol_kden evalZ I env1 ax) ->
+  map (evalp (list kt) Z sol_kden evalZ I env1) (fst (sol_prun Z orc_ex reg_empty (p_empty (list kt) Z) ops_ex)) = [7; 8; 7; 9].
+Proof. exact path_seq_example. Qed.
+
 (* ---- REFUTED: decoding is not monotone in the registry (finding F4).  With the real
    Keccak-256: the constant keccak(100000) decodes to the scalar slot before the hash is
    registered and to element 0 of the array at slot 100000 afterwards; a value stored
